@@ -3,6 +3,5 @@ CONSTANTS
   NStop = 2
   Budget = 2
   Variant = "ok"
-SPECIFICATION FairSpec
+SPECIFICATION Spec
 INVARIANTS TypeOK ClosedAtMostOnce ClosedOnReturn NoLateInnerCommit StopMeansStopped ErrChDrained
-PROPERTIES EveryStopReturns CleanupCompletes InnerStopsReturn
